@@ -345,7 +345,7 @@ TProj ==
         G12(b.out_cap = R.out_cap /\ b.in_cap = R.in_cap /\ b.n_in = R.n_in /\ b.n_out = R.n_out /\ b.ready = R.ready)
 
 TOther ==
-  /\ l <= Len(Rec) /\ Rec[l].ev \in {"forward", "claim", "fail", "fee", "tick", "block", "persist_mode", "restarted", "close", "open_extra", "pause_flush", "flush", "hold_events", "settle_chain", "mine_skipped"}
+  /\ l <= Len(Rec) /\ Rec[l].ev \in {"forward", "claim", "fail", "fee", "tick", "block", "persist_mode", "restarted", "close", "open_extra", "pause_flush", "flush", "hold_events", "settle_chain", "mine_skipped", "sweeper_track_failed"}
   /\ l' = l + 1 /\ Stutter
 
 \* ---- a channel opened while the run is in progress (C09: nothing that depends on the initial
@@ -368,6 +368,9 @@ TExtra ==
 \* C12: the scorer survives serialization (same bytes, same answers), truncations are refused
 TScorer == IsEvent("rt_scorer") /\ Stutter
            /\ G12(R.read_ok /\ R.answers_equal /\ R.truncated_refused)   \* (byte equality is not required: hash-map order)
+
+\* C12: the output sweeper survives serialization and reacts to later blocks like the original
+TSweeper == IsEvent("rt_sweeper") /\ Stutter /\ G12(R.read_ok /\ R.equal)
 
 \* ---- end of a wound-down run, per node (also for nodes all of whose channels are closed)
 HasEv(S, n, h) == \E p \in S : p[1] = n /\ p[2] = h
@@ -403,7 +406,7 @@ TFin ==
                                     {a \in fw.adds : a.node = n /\ a.dir = "in"})
                IN gotIn >= paidOut)
 
-TraceNext == TForceClose \/ TSettled \/ TEventRefused \/ TFin \/ TScorer \/ TExtra \/ TOpen \/ TMsg \/ TDeliver \/ TPersist \/ TComplete \/ TSend \/ TDisconnect \/ TReconnect
+TraceNext == TSweeper \/ TForceClose \/ TSettled \/ TEventRefused \/ TFin \/ TScorer \/ TExtra \/ TOpen \/ TMsg \/ TDeliver \/ TPersist \/ TComplete \/ TSend \/ TDisconnect \/ TReconnect
              \/ TEvent \/ TOther \/ TMgrSnap \/ TCrash \/ TBroadcast \/ TProj
 
 TraceSpec == TraceInit /\ [][TraceNext]_tvars
